@@ -50,6 +50,8 @@ DelayOf(c, n, k) ==
     [] c.delay = "float" -> <<1, 3>>
     [] OTHER -> <<1, 10 * n + k>>      \* delay function f(attempt, exc) = 10*attempt + index(exc)
 
+CANCELLED == 99      \* result: the caller's own cancellation came out (not an outcome of the wrapped function)
+
 Init == /\ cfg \in Configs
         /\ calls = 0 /\ attempt = 0 /\ hist = <<>> /\ pauses = <<>>
         /\ status = "running" /\ result = 0
@@ -74,7 +76,17 @@ Attempt(o) ==
          ELSE /\ status' = "raised" /\ result' = calls' /\ UNCHANGED <<attempt, pauses>>
   /\ obs' = [status |-> status', calls |-> calls', pauses |-> pauses', result |-> result']
 
-Next == \E o \in Outcomes : Attempt(o)
+(* the caller is cancelled while the async wrapper pauses between two attempts (only possible when a delay is configured:
+   without one the wrapper does not suspend between attempts): the cancellation ends the call, nothing is called again *)
+InPause == status = "running" /\ cfg.mode = "async" /\ cfg.delay # "none" /\ attempt >= 1 /\ Len(pauses) = attempt
+CancelInPause ==
+  /\ InPause
+  /\ status' = "raised" /\ result' = CANCELLED
+  /\ UNCHANGED <<cfg, calls, attempt, hist, pauses>>
+  \* (the pause that was interrupted is not among the completed ones the caller can count)
+  /\ obs' = [status |-> status', calls |-> calls, pauses |-> SubSeq(pauses, 1, Len(pauses) - 1), result |-> result']
+
+Next == (\E o \in Outcomes : Attempt(o)) \/ CancelInPause
 Spec == Init /\ [][Next]_vars
 
 -----------------------------------------------------------------------------
@@ -90,7 +102,7 @@ CallsBound == calls <= cfg.limit + 1
 
 (* called until the first success, the first exception outside the caught set, or limit+1 calls *)
 ExactAttempts ==
-  status # "running" =>
+  (status # "running" /\ result # CANCELLED) =>
      /\ calls = Len(hist)
      /\ IF FirstTerminal # 0 THEN calls = FirstTerminal ELSE calls = cfg.limit + 1
 (* and never stops early *)
@@ -98,8 +110,10 @@ NoEarlyStop == status = "running" => (FirstTerminal = 0 /\ calls <= cfg.limit)
 
 (* the caller gets that success value or that last exception object itself *)
 TrueLastOutcome ==
-  status # "running" => /\ result = calls
-                        /\ (status = "returned") = (hist[calls] = "ok")
+  (status # "running" /\ result # CANCELLED) => /\ result = calls
+                                                /\ (status = "returned") = (hist[calls] = "ok")
+(* a cancellation of the caller during a pause ends the call at once *)
+CancelEndsCall == result = CANCELLED => (status = "raised" /\ calls = Len(hist))
 
 (* cancellation and other non-Exception errors are never retried *)
 NeverRetryBase == \A i \in 1..Len(hist) : hist[i] \in {"cancelled", "base"} => i = Len(hist) /\ status = "raised"
@@ -107,6 +121,6 @@ NeverRetryBase == \A i \in 1..Len(hist) : hist[i] \in {"cancelled", "base"} => i
 (* exactly one pause between consecutive attempts, of the configured length *)
 PausesRight ==
   /\ Len(pauses) = attempt
-  /\ status # "running" => Len(pauses) = calls - 1
+  /\ (status # "running" /\ result # CANCELLED) => Len(pauses) = calls - 1
   /\ \A i \in 1..Len(pauses) : pauses[i] = DelayOf(cfg, i, i)
 =============================================================================
